@@ -84,6 +84,13 @@ PROPS = {
                         'two included files with the same stem are outside the property (their outputs would collide as well)'],
         'level': 'proof',
     },
+    'C17': {
+        'modules': ['contracts.c17_patch'],
+        'standins': ['frontends'],
+        'trusted': PYVC_TRUST + ['ElementTree (xml parsing) assumed'],
+        'assumptions': ['the isar <dimension> form table is taken from the property statement and the isar convention (one form documented)'],
+        'level': 'proof',
+    },
     'C19': {
         'modules': ['contracts.c01_encode', 'contracts.c01_arrays', 'contracts.c01_wrappers', 'contracts.c04_runtime'],
         'standins': ['py_codec'],
